@@ -18,7 +18,7 @@ RULE = ("random un-canted shots x look angle {0, +-0.5, +-5, +-30, +-45, +-59 de
         "distance exceeds 300 yd or the stored zero is non-zero")
 MUST_OBSERVE = ["zeroings", "zeroings_judged", "fire_backs", "look_level", "look_small", "look_steep", "with_wind",
                 "stored_zero_nonzero", "api_set_weapon_zero", "api_barrel_elevation", "raises_adjudicated", "unreachable_precondition", "raises_with_precondition_false",
-                "failures_zero_kept_checked", "zeroed_before_under_other_conditions"]
+                "failures_zero_kept_checked", "zeroed_before_under_other_conditions", "powder_sensitive_zeroings"]
 ASSUMPTIONS = ["'one integration step of travel' = the largest overshoot the zero finder's end condition permits: (min step + longest "
                "down-range advance of one step) / cos(trajectory angle), taken from the step trace of the fire-back; bound = accuracy + "
                "1.25 x (overshoot x |sin(relative angle)| + curvature remainder)",
@@ -182,6 +182,8 @@ def check_case(ctx, case):
             ctx.count("with_wind")
         if spec.get("zero_deg"):
             ctx.count("stored_zero_nonzero")
+        if spec.get("powder"):
+            ctx.count("powder_sensitive_zeroings")
         judge_fire_back(ctx, calc, cfg, spec, look + hold, d_ft, case)
         ctx.case(case, nontrivial=nontrivial)
     else:
@@ -254,6 +256,9 @@ def gen_case(rng):
         s["atmo"] = {"kind": "icao", "alt_ft": 0.0}
         s["mv_fps"] = max(s["mv_fps"], 2000.0)
         d_yd = round(1500.0 / abs(math.sin(math.radians(s["look_deg"]))) / 3.0 * rng.uniform(1.02, 1.3), 1)
+    if rng.random() < 0.2:
+        # temperature-sensitive powder stated at another temperature than the air's: zeroing and firing must launch alike
+        s["powder"] = {"temp_c": round(rng.uniform(-25, 45), 1), "modifier": round(rng.choice([-1, 1]) * rng.uniform(0.005, 0.03), 4), "use": True}
     case = {"shot": s, "distance_ft": d_yd * 3.0, "api": rng.choice(["set_weapon_zero", "barrel_elevation"])}
     if rng.random() < 0.15:
         case["config"] = rng.choice([{"max_calc_step_size_feet": 1.0}, {"cZeroFindingAccuracy": 1e-4}, {"max_calc_step_size_feet": 0.25}])
